@@ -1309,6 +1309,39 @@ def repr_checks(ctx):
     return samples
 
 
+def large_set_checks(ctx):
+    """the mean of a large point set (beyond any block size an implementation may process at once) is the direction of
+    the weighted vector sum: compared with the sum of the implementation's own unit vectors accumulated exactly
+    (math.fsum), to 1e-9 rad - the per-sample interval goals cover small sets only"""
+    rng = ctx.rng
+    AC = impl.AngularCoordinates
+    sizes = [2 ** 20 + 37] if ctx.quick() else [2 ** 20 + 37, 2 ** 21 + 5, 3 * 2 ** 20 + 1]
+    for N in sizes:
+        for weighted in (False, True):
+            g = np.random.default_rng(rng.randrange(2 ** 31))
+            ra0, dec0 = rng.uniform(0.0, 2 * math.pi), rng.uniform(-1.2, 1.2)
+            # unevenly filled: the first block is a tight clump, the rest a wide cap elsewhere
+            n1 = 2 ** 20 - rng.randrange(1, 50)
+            ra = np.concatenate([ra0 + g.uniform(-0.01, 0.01, n1), ra0 + 1.0 + g.uniform(-0.3, 0.3, N - n1)]) % (2 * math.pi)
+            dec = np.clip(np.concatenate([dec0 + g.uniform(-0.01, 0.01, n1), -dec0 * 0.5 + g.uniform(-0.3, 0.3, N - n1)]), -1.5, 1.5)
+            w = g.uniform(0.5, 2.0, N) if weighted else None
+            pts = np.column_stack([ra, dec])
+            obj = AC(pts)
+            got = obj.mean(w).data[0]
+            xyz = obj.to_3d()
+            ww = np.ones(N) if w is None else w
+            ssum = [math.fsum((xyz[:, k] * ww).tolist()) for k in range(3)]
+            ref = AC.from_3d(np.array([ssum])).data[0]
+            sep = float(AC(np.array([got])).distance(AC(np.array([ref]))).data[0])
+            ctx.count(key=("large-mean", N, weighted), nontrivial=True, kind="large-set/mean")
+            if not (sep <= 1e-9):
+                ctx.fail("c14-mean-large-set", "mean() of %d points (%s) is %.3g rad away from the direction of the weighted vector sum"
+                         % (N, "weighted" if weighted else "unweighted", sep),
+                         dict(N=N, weighted=weighted, got=[hexf(x) for x in got], expected=[hexf(x) for x in ref],
+                              note="points regenerated from the run's seed (harness/props/c14.py:large_set_checks)"),
+                         case=("large-mean", N, weighted))
+
+
 def interval_axioms(ctx):
     """record verbatim what Interval adds to the trusted base (Print Assumptions of a lemma proved by `interval`)"""
     path = os.path.join(ctx.workdir, "Axioms_C14.v")
@@ -1341,6 +1374,7 @@ def run(ctx):
     q_checks(ctx)
     batch_checks(ctx)
     value_checks(ctx)
+    large_set_checks(ctx)
     ctx.log("undecided goals: %d" % ctx.extra.get("undecided", 0))
 
 
